@@ -244,6 +244,7 @@ def cact(acts):
 def cev(ev, cfg):
     if ev == "none": return "none"
     if ev == "any": return "std::any" if cfg.startswith("mp11") else "boost::any"
+    if ev == "anyu": return "vrt::UAny"        # user-declared Kleene type (is_kleene_event specialised in verif_rt.hpp)
     return ev
 
 def cexpr(g, ev):
